@@ -189,13 +189,6 @@ def assign(o, pv, style='slice'):
         o.value = pv
 
 
-def gen_for_obj(raw, rng):
-    """value for the whole object (array: one value per element)"""
-    if isinstance(raw, Array):
-        return gen(type(raw), rng)
-    return gen(type(raw), rng)
-
-
 def canon(x):
     if isinstance(x, (bytes, str, int, float, bool)) or x is None:
         return x
